@@ -11,7 +11,7 @@ func checkC13(p *Prog, r *Report) {
 	r.Trusted = []string{"cosmos-sdk v0.47.12 types/query, store/prefix"}
 	m := aolRules(p, r, "C13", func(tag string) bool {
 		switch tag {
-		case "family", "wmc", "schema", "counter", "genesis":
+		case "family", "wmc", "schema", "content", "counter", "genesis":
 			return true
 		}
 		return false
